@@ -750,7 +750,13 @@ class Screen:
             for yy in range(max(0, y), min(self.rows, y + h)):
                 row = self.grid[yy]
                 for xx in range(x, min(self.cols, x + w)):
-                    row[xx] = (" ", None, None, frozenset(), (ref, xx - x, yy - y))
+                    if self.profile == "wezterm":
+                        # WezTerm draws the image over the cells without clearing their text (the reason why the
+                        # library erases the area first unless mix is requested): the glyph underneath stays
+                        old = row[xx]
+                        row[xx] = (old[0], old[1], old[2], old[3], (ref, xx - x, yy - y))
+                    else:
+                        row[xx] = (" ", None, None, frozenset(), (ref, xx - x, yy - y))
                     self.touched[yy][xx] = True
         entry["placed"] = (x, y, w, h)
         if keys.get("doNotMoveCursor") == "1":
